@@ -222,17 +222,23 @@ def judge(w, d, gen, act, info, reorg_limit=5):
     chain = tip.chain() if tip else []
     lines = [f'CFG {act} {reorg_limit}'] + [b.model_line() for b in chain] + ['S_CHAIN ' + ' '.join(str(b.id) for b in chain)]
     expect = ['ok'] * len(lines)
+    def ask(fn, *a):
+        # a corrupted database may make the read path itself raise: that is an answer, not a harness error
+        try:
+            return fn(*a)
+        except Exception as e:   # noqa
+            return f'raised {type(e).__name__}'
     for s in SCRIPTS:
         hx = hashx_of(s)
         lines.append(f'S_UTXOS {be(hx)}')
-        expect.append(ri.q_utxos(hx))
+        expect.append(ask(ri.q_utxos, hx))
         lines.append(f'S_HIST {be(hx)} -')
-        expect.append(ri.q_hist(hx, None))
+        expect.append(ask(ri.q_hist, hx, None))
     for hh in range(len(chain)):
         lines.append(f'S_TXHASHES {hh}')
-        expect.append(ri.q_txhashes(hh))
+        expect.append(ask(ri.q_txhashes, hh))
     lines.append('S_STATE')
-    expect.append(ri.q_state())
+    expect.append(ask(ri.q_state))
     got = run_evdrv('index', lines)
     for l, e, g in zip(lines, expect, got):
         if e != g:
